@@ -115,6 +115,15 @@ def _call_name(c: ast.Call) -> str:
     return c.func.id if isinstance(c.func, ast.Name) else ""
 
 
+def acc_key(e: ast.AST) -> str | None:
+    """Key of an accumulator: a local name, or a field of a local record object (`conversion.name_filters`)."""
+    if isinstance(e, ast.Name):
+        return e.id
+    if isinstance(e, ast.Attribute) and isinstance(e.value, ast.Name) and e.value.id not in ("self", "cls"):
+        return f"{e.value.id}.{e.attr}"
+    return None
+
+
 def splice_starred(e: ast.AST) -> ast.AST:
     """`f(*(a, b))` -> `f(a, b)` (after a name was replaced by the tuple it stands for)."""
     for c in ast.walk(e):
@@ -245,47 +254,48 @@ class Collections:
                             ev.setdefault(real, []).append(("remove", m, n, n.args[0] if n.args else None, None, cs))
                     continue
                 if m in ADD_ONE or m in ADD_MANY or m in REMOVE or m == "setdefault":
-                    if isinstance(recv, ast.Name):
+                    k_ = acc_key(recv)
+                    if k_ is not None:
                         if m in ADD_ONE and len(n.args) > ADD_ONE[m]:
-                            add(recv.id, ("add", m, n, n.args[ADD_ONE[m]], None, []))
+                            add(k_, ("add", m, n, n.args[ADD_ONE[m]], None, []))
                         elif m in ADD_MANY and n.args:
-                            add(recv.id, ("addmany", m, n, n.args[0], None, []))
+                            add(k_, ("addmany", m, n, n.args[0], None, []))
                         elif m == "setdefault" and n.args:
                             # value-less registration of a key unless the result is mutated (handled below)
                             p = parent(n)
                             if not (isinstance(p, ast.Attribute) and isinstance(parent(p), ast.Call)):
-                                add(recv.id, ("add", "setdefault", n, n.args[0], n.args[1] if len(n.args) > 1 else ast.Constant(value=None), []))
+                                add(k_, ("add", "setdefault", n, n.args[0], n.args[1] if len(n.args) > 1 else ast.Constant(value=None), []))
                         elif m == "difference_update" and n.args:
-                            add(recv.id, ("removemany", m, n, n.args[0], None, []))
+                            add(k_, ("removemany", m, n, n.args[0], None, []))
                         elif m in REMOVE:
-                            add(recv.id, ("remove", m, n, n.args[0] if n.args else None, None, []))
-                    elif isinstance(recv, ast.Subscript) and isinstance(recv.value, ast.Name) and (m in ADD_ONE or m in ADD_MANY):
+                            add(k_, ("remove", m, n, n.args[0] if n.args else None, None, []))
+                    elif isinstance(recv, ast.Subscript) and acc_key(recv.value) is not None and (m in ADD_ONE or m in ADD_MANY):
                         arg = n.args[ADD_ONE[m]] if m in ADD_ONE and len(n.args) > ADD_ONE[m] else (n.args[0] if n.args else None)
-                        add(recv.value.id, ("add", "subscript-load", n, recv.slice, arg, []))
-                    elif isinstance(recv, ast.Subscript) and isinstance(recv.value, ast.Name) and m in REMOVE:
-                        add(recv.value.id, ("remove", "subscript-" + m, n, recv.slice, None, []))
-                    elif isinstance(recv, ast.Call) and isinstance(recv.func, ast.Attribute) and recv.func.attr == "setdefault" and isinstance(recv.func.value, ast.Name) and recv.args and (m in ADD_ONE or m in ADD_MANY):
+                        add(acc_key(recv.value), ("add", "subscript-load", n, recv.slice, arg, []))
+                    elif isinstance(recv, ast.Subscript) and acc_key(recv.value) is not None and m in REMOVE:
+                        add(acc_key(recv.value), ("remove", "subscript-" + m, n, recv.slice, None, []))
+                    elif isinstance(recv, ast.Call) and isinstance(recv.func, ast.Attribute) and recv.func.attr == "setdefault" and acc_key(recv.func.value) is not None and recv.args and (m in ADD_ONE or m in ADD_MANY):
                         arg = n.args[ADD_ONE[m]] if m in ADD_ONE and len(n.args) > ADD_ONE[m] else (n.args[0] if n.args else None)
-                        add(recv.func.value.id, ("add", "setdefault", n, recv.args[0], arg, []))
+                        add(acc_key(recv.func.value), ("add", "setdefault", n, recv.args[0], arg, []))
             elif isinstance(n, ast.Assign):
                 for t in n.targets:
-                    if isinstance(t, ast.Subscript) and isinstance(t.value, ast.Name):
-                        add(t.value.id, ("add", "subscript-store", n, t.slice, n.value, []))
+                    if isinstance(t, ast.Subscript) and acc_key(t.value) is not None:
+                        add(acc_key(t.value), ("add", "subscript-store", n, t.slice, n.value, []))
             elif isinstance(n, ast.AugAssign):
                 t = n.target
-                if isinstance(t, ast.Name):
+                if isinstance(t, (ast.Name, ast.Attribute)) and acc_key(t) is not None:
                     if isinstance(n.op, (ast.Add, ast.BitOr)):
-                        add(t.id, ("addmany", "augassign", n, n.value, None, []))
+                        add(acc_key(t), ("addmany", "augassign", n, n.value, None, []))
                     elif isinstance(n.op, ast.Sub):
-                        add(t.id, ("removemany", "augassign", n, n.value, None, []))
+                        add(acc_key(t), ("removemany", "augassign", n, n.value, None, []))
                     else:
-                        add(t.id, ("remove", "augassign", n, n.value, None, []))
-                elif isinstance(t, ast.Subscript) and isinstance(t.value, ast.Name):
-                    add(t.value.id, ("add", "subscript-aug", n, t.slice, n.value, []))
+                        add(acc_key(t), ("remove", "augassign", n, n.value, None, []))
+                elif isinstance(t, ast.Subscript) and acc_key(t.value) is not None:
+                    add(acc_key(t.value), ("add", "subscript-aug", n, t.slice, n.value, []))
             elif isinstance(n, ast.Delete):
                 for t in n.targets:
-                    if isinstance(t, ast.Subscript) and isinstance(t.value, ast.Name):
-                        add(t.value.id, ("remove", "del", n, t.slice, None, []))
+                    if isinstance(t, ast.Subscript) and acc_key(t.value) is not None:
+                        add(acc_key(t.value), ("remove", "del", n, t.slice, None, []))
         self._events = ev
         return ev
 
@@ -543,7 +553,37 @@ class Collections:
                 s = fn.summarise(e, stmt_of(e), 6, set())
                 if s is not None and isinstance(s, (*COMPS, ast.List, ast.Tuple, ast.Set, ast.Dict, ast.IfExp, ast.BinOp, ast.Name)):
                     return self._describe_copy(s)
+        if isinstance(e, ast.Attribute):
+            rec = self._record_field(e, depth, busy)
+            if rec is not None:
+                return rec
+            r = self.resolve_attr(e)
+            if r is not None:
+                return self._describe_copy(r)
         return self._root(e)
+
+    def _record_field(self, e: ast.Attribute, depth: int, busy: set) -> Desc | None:
+        """`obj.field` where obj is a local record object whose field is changed in place (`obj.field.add(x)`): what the
+        constructor put there plus the events on the field."""
+        k_ = acc_key(e)
+        if k_ is None or k_ not in self.events() or ("ev", k_) in busy:
+            return None
+        base = e.value
+        tb = self.tree(base) if parent(base) is None else base
+        if tb is None:
+            return None
+        defs = self.fn.reaching(tb.id, tb)
+        if len(defs) != 1 or defs[0].kind != "assign" or defs[0].value is None:
+            return None
+        made = self.fn._ex(defs[0].value, defs[0].stmt, 6, set())
+        if not isinstance(made, ast.Call):
+            return None
+        init = self.fn.ctor_field(made, e.attr)
+        if init is None:
+            return None
+        out = Desc() if _is_empty_value(init) else self._describe_copy(self.fn.simplify(init))
+        out.extend(self._event_contribs(k_, [defs[0].stmt], depth, busy | {("ev", k_)}))
+        return out
 
     def _describe_generator(self, call: ast.Call, depth: int) -> Desc | None:
         """`helper(args)` where helper is a private / local generator function: one contribution per `yield`, expressed over
@@ -627,6 +667,27 @@ class Collections:
             out.contribs.append(Contribution(sb(c.elt), sb(c.value), binders, [(sb(x), p_) for x, p_ in c.conds], [], call, "add", "generator"))
         return out
 
+    def resolve_attr(self, e: ast.Attribute) -> ast.AST | None:
+        """`obj.field` where obj is a local record object (built by a constructor / factory of a small class): the expression the
+        field was given; None if it cannot be looked through."""
+        base = e.value
+        xb = None
+        if isinstance(base, ast.Name):
+            tb = self.tree(base) or (base if hasattr(base, "_at") else None)
+            if tb is not None and tb.id not in self.fn.mutated:
+                xb = self.fn.expand(tb)
+                if isinstance(xb, ast.Name):
+                    xb = None
+        elif isinstance(base, ast.Call):
+            xb = base
+        if xb is None:
+            return None
+        new = ast.Attribute(value=xb, attr=e.attr, ctx=ast.Load())
+        r = self.fn.simplify(new)
+        if isinstance(r, ast.Attribute) and r.attr == e.attr and r.value is xb:
+            return None
+        return r
+
     def _describe_copy(self, e: ast.AST) -> Desc:
         """Description of a detached (expanded / summarised) collection expression."""
         t = self.tree(e)
@@ -634,6 +695,13 @@ class Collections:
             return self._describe(t, 8, set())
         if isinstance(e, ast.Name) and hasattr(e, "_at"):
             return self._describe(e, 8, set())  # free variable of a nested function, seen from its definition
+        if isinstance(e, ast.Attribute):
+            rec = self._record_field(e, 8, set())
+            if rec is not None:
+                return rec
+            r = self.resolve_attr(e)
+            if r is not None:
+                return self._describe_copy(r)
         if isinstance(e, COMPS):
             ctx, orig = self.fn.ctx_of(e)
             loop = orig if ctx is self.fi and isinstance(orig, COMPS) else e  # identity of the comprehension it was copied from
@@ -815,8 +883,11 @@ class Collections:
             # a local that is bound once to product(...) / enumerate(...) / a copy call stands for that call
             if isinstance(src, ast.Name) and (parent(src) is not None or hasattr(src, "_at")):
                 ds = self.fn.reaching(src.id, src)
-                if len(ds) == 1 and ds[0].kind == "assign" and isinstance(ds[0].value, ast.Call) and src.id not in self.fn.mutated and (_call_name(ds[0].value) in ("product", "enumerate") or self.fn.lib_name(ds[0].value.func) == "itertools.product"):
-                    src = ds[0].value
+                dv = ds[0].value if len(ds) == 1 and ds[0].kind == "assign" else None
+                while isinstance(dv, ast.Call) and _call_name(dv) in COPY_CALLS and len(dv.args) == 1:
+                    dv = dv.args[0]  # list(product(...)), tuple(zip(...))
+                if isinstance(dv, ast.Call) and src.id not in self.fn.mutated and (_call_name(dv) in ("product", "enumerate", "zip") or self.fn.lib_name(dv.func) == "itertools.product"):
+                    src = dv
                     b = Binder(b.target, src, b.loop, b.root, b.site, b.via)
                     c.binders[idx] = b
             # wrappers around the source
@@ -841,6 +912,32 @@ class Collections:
                 later = [Binder(bb.target, sbp(bb.source) if any(isinstance(x, ast.Name) and x.id in env for x in ast.walk(bb.source)) else bb.source, bb.loop, bb.root, bb.site) for bb in c.binders[idx + 1:]]
                 nc = Contribution(sbp(c.elt), sbp(c.value), c.binders[:idx] + nb + later, [(sbp(x), p_) for x, p_ in c.conds], c.context, c.node, c.kind, c.how, c.acc, c.nlocal, dict(c.ren))
                 work.insert(0, nc)
+                continue
+            if isinstance(src, ast.Call) and _call_name(src) == "zip" and isinstance(b.target, (ast.Tuple, ast.List)) and len(b.target.elts) == len(src.args) >= 2 and not src.keywords and all(isinstance(t_, ast.Name) for t_ in b.target.elts):
+                # streams over the same sources, consumed in lockstep:  zip((f(k) for k in K), (g(k) for k in K))  ==  ((f(k), g(k)) for k in K)
+                subs = [self.normalise(self._describe_copy(a_), depth - 1) for a_ in src.args]
+                ok_ = all(len(d_.contribs) == 1 and not d_.unknown and not d_.removals and not d_.contribs[0].conds and d_.contribs[0].value is None for d_ in subs)
+                if ok_:
+                    first = subs[0].contribs[0]
+                    for d_ in subs[1:]:
+                        c2 = d_.contribs[0]
+                        if len(c2.binders) != len(first.binders) or any(not (b1.root and b2.root and norm(b1.source) == norm(b2.source) and len(b1.names) == len(b2.names) >= 1) for b1, b2 in zip(first.binders, c2.binders)):
+                            ok_ = False
+                if ok_:
+                    env = {}
+                    for t_, d_ in zip(b.target.elts, subs):
+                        c2 = d_.contribs[0]
+                        ren2 = {n2: ast.Name(id=n1, ctx=ast.Load()) for b1, b2 in zip(first.binders, c2.binders) for n1, n2 in zip(b1.names, b2.names)}
+                        env[t_.id] = substitute(copy_node(c2.elt, self.fi), ren2)
+
+                    def sbz(x):
+                        return self.fn.simplify(splice_starred(substitute(copy_node(x, self.fi), env))) if x is not None else None
+
+                    nb = [Binder(bb.target, bb.source, b.loop, True, b.site, bb.via + b.via) for bb in first.binders]
+                    later = [Binder(bb.target, sbz(bb.source) if any(isinstance(x, ast.Name) and x.id in env for x in ast.walk(bb.source)) else bb.source, bb.loop, bb.root, bb.site, bb.via) for bb in c.binders[idx + 1:]]
+                    work.insert(0, Contribution(sbz(c.elt), sbz(c.value), c.binders[:idx] + nb + later, [(sbz(x), p_) for x, p_ in c.conds], c.context, c.node, c.kind, c.how, c.acc, c.nlocal, dict(c.ren)))
+                    continue
+                out.unknown.append(f"`{norm(src, 60)}`: the zipped streams are not recognised as running over the same elements in lockstep")
                 continue
             if isinstance(src, ast.Call) and _call_name(src) == "enumerate" and isinstance(b.target, (ast.Tuple, ast.List)) and len(b.target.elts) == 2 and src.args:
                 c.binders[idx] = Binder(b.target.elts[1], src.args[0], b.loop, False, b.site, b.via)
